@@ -4,8 +4,6 @@ use std::collections::HashMap;
 #[verifier::external_body] pub struct TypeVar { _p: u32 }
 #[verifier::external_body] pub struct Prim { _p: u64 }
 #[verifier::external_body] pub struct Constructor { _p: u64 }
-#[verifier::external_body] pub struct UnaryOp { _p: u64 }
-#[verifier::external_body] pub struct BinaryOp { _p: u64 }
 #[verifier::external_body] pub struct ClosureParam { _p: u64 }
 #[verifier::external_body] pub struct MySyntaxNodePtr { _p: u64 }
 pub trait VClone: Sized { fn vclone(&self) -> (r: Self) ensures r == *self; }
@@ -88,7 +86,7 @@ impl VClone for Vec<Row> { #[verifier::external_body] fn vclone(&self) -> (r: Se
 pub uninterp spec fn rows_core(rows: Seq<Row>, ty: Ty) -> core::Expr;
 #[verifier::external_body]
 pub fn compile_rows_rec(genv: &GlobalTypeEnv, gensym: &Gensym, diagnostics: &mut Diagnostics, rows: Vec<Row>, ty: &Ty, match_range: Option<TextRange>) -> (r: core::Expr)
-    ensures r == rows_core(rows@, *ty),
+    ensures r == rows_core(rows@, *ty), rows@.len() == 0 ==> r == missing_of(*ty),      // the second clause is what the verified head of compile_rows does
 { unimplemented!() }
 #[verifier::external_body] pub fn unreached<T>() -> (r: T) requires false { unimplemented!() }
 
@@ -326,8 +324,9 @@ pub open spec fn lit_switch<K>(r: core::Expr, bvar: Variable, es: Seq<(K, Seq<Ro
     && *expr == var_core(bvar) && arms@.len() == es.len()
     && (forall|i: int| 0 <= i < arms@.len() ==> has_entry(es, #[trigger] arms@[i], ty, lhs_ok))
     && (forall|j: int| 0 <= j < es.len() ==> has_arm(arms@, #[trigger] es[j], ty, lhs_ok))
-    && (dflt.len() == 0 ==> default is None)
-    && (dflt.len() > 0 ==> (default matches Some(d) && *d == rows_core(dflt, ty)))
+    // the default arm is the decision tree of the default sub-matrix; with NO unconstrained row that tree is the `missing` call: a value
+    // none of the literals matches makes the program fail there (C06), it does not fall out of the switch with a zero value
+    && (default matches Some(d) && *d == rows_core(dflt, ty) && (dflt.len() == 0 ==> *d == missing_of(ty)))
 }
 pub open spec fn str_lhs() -> spec_fn(Seq<char>, core::Expr) -> bool {
     |k: Seq<char>, e: core::Expr| e matches core::Expr::EPrim { value, ty } && value.str_of() == Some(k) && ty is TString
